@@ -96,4 +96,4 @@ for wt in sorted(glob.glob(BASE + "/C*")):
                     "detected_by": "TBD"}
             json.dump(meta, open(f"{d}/meta.json", "w"), indent=1)
         print(name, r["status"], flush=True)
-json.dump(results, open(BASE + "/confirm.json", "w"), indent=1)
+json.dump(results, open(BASE + "/confirm" + ("-" + "_".join(only) if only else "") + ".json", "w"), indent=1)
